@@ -261,7 +261,14 @@ Outcome run_files_events(const Plan & plan, const RunCtx & ctx)
                        + " events were delivered (" + std::to_string(complete) + " complete records + 1 in the second file): one of them was made up");
       }
     }
-    if ((size_t)delivered * 2 > lines + 2) out.fail("C15", "garbage-load", "more-events-than-the-file-can-hold " + sigctx, std::to_string(delivered) + " events delivered from a file of " + std::to_string(lines) + " lines");
+    // the reader is token based (records need not sit on lines of their own: a stuck write may put hundreds on one line);
+    // an event takes at least four tokens (id, time, label, particle count)
+    {
+      size_t toks = 0; bool in = false;
+      for (const std::string * t : {&bad, &valid}) { for (char c : *t) { bool w = isspace((unsigned char)c) != 0; if (!w && !in) toks++; in = !w; } in = false; }
+      if ((size_t)delivered * 4 > toks + 4)
+        out.fail("C15", "garbage-load", "more-events-than-the-file-can-hold " + sigctx, std::to_string(delivered) + " events delivered from files of " + std::to_string(toks) + " tokens");
+    }
   }
   check_resources(out, check, "event_reader", lim, alloc_ctl().bytes, alloc_ctl().max_single, reads, sigctx);
   out.cover.push_back("events/" + fault_kinds(plan) + "/" + (threw ? "error" : "accepted"));
